@@ -359,17 +359,16 @@ func GeoTail(pad, tail int, seed uint64) []byte {
 		b[i], b[j] = b[j], b[i]
 	}
 	once := []byte("stuvwxyz")
-	// the once-only symbols that do not end the input are spread over the body
-	for i := 0; i < len(once)-tail; i++ {
-		p := int(r.next() % uint64(len(b)))
-		b = append(b[:p+1], b[p:]...)
-		b[p] = once[i]
-	}
-	for i := 0; i < pad; i++ {
-		b = append(b, byte('A'+11))
-	}
 	if tail > len(once) {
 		tail = len(once)
+	}
+	// the once-only symbols that do not end the input form one cluster (the longest codes back to back inside one
+	// iteration of a vectorised encoder) whose position moves with pad
+	p := 1000 + pad
+	cluster := once[:len(once)-tail]
+	b = append(b[:p], append(append([]byte{}, cluster...), b[p:]...)...)
+	for i := 0; i < pad; i++ {
+		b = append(b, byte('A'+11))
 	}
 	return append(b, once[len(once)-tail:]...)
 }
